@@ -497,7 +497,7 @@ static int maxlen(Tier t, int fi, int ni)
 {
 	if (t == Quick) return 4;
 	if (ni == 0) return 5;                                      // all formats, unrestricted names
-	if (ni == 1 && (fi == 0 || fi == 1 || fi == 3)) return 5;   // strict names: default, online (option end), config (separated)
+	if (ni == 1 && fi == 0) return 5;                           // strict names: default format
 	return 4;
 }
 void mc_jobs(Tier t, std::vector<std::string> &jobs)
